@@ -13,6 +13,11 @@ from .common import PB, SATM, call_name, norm_stmt, stmt_calls
 from .C16 import ineq_table
 
 S_ = ("self",)
+from framelint.canon import canon_function as _canon_function_expanded
+
+def canon_function(fi, model=None, opts=None, expand=True):
+    return _canon_function_expanded(fi, model, opts, expand=expand)
+
 
 
 @rule("C07", "R1.encode-or-refuse", "MUST-PASS/STRICT-AWARE",
@@ -262,7 +267,7 @@ def r4(ctx: Ctx) -> None:
     if not ok:
         ctx.report(f.where, "pairwise-amo " + "; ".join(show(x) for x in c)[:200], "quadraticencoding does not post (not l_i or not l_j) for all i < j", lineno=f.node.lineno)
     g = ctx.func(SATM, "SATManager.heuleencoding")
-    cg = canon_function(g, ctx.model)
+    cg = canon_function(g, ctx.model, expand=False)    # the identity of the fresh variable matters here
     k = ("p", 1)
     gg = ctx.cfg(g)
     ctx.site(g.where, "k < 3 refused")
